@@ -76,8 +76,8 @@ Definition csdict_eqb (a b : csdict) : bool :=
                           && expr_eqb (snd p) (snd q)) (dd_rates a) (dd_rates b)
   && expr_eqb (dd_t a) (dd_t b).
 
-Definition eqres_of (r : option bool) : eqres :=
-  match r with Some true => EqTrue | Some false => EqFalse | None => EqRaises end.
+(* the model's == never raises (fix 876afb2); an observed EqRaises is a disagreement *)
+Definition eqres_of (r : bool) : eqres := if r then EqTrue else EqFalse.
 Definition eqres_eqb (a b : eqres) : bool :=
   match a, b with EqTrue, EqTrue | EqFalse, EqFalse | EqRaises, EqRaises => true | _, _ => false end.
 
